@@ -1,4 +1,5 @@
 import ArrowModel.C19.Lemmas
+import ArrowModel.C19.InPlace
 /-
 C19 — property theorems.  "Every operation on bit-packed data returns exactly what the same
 operation on the corresponding sequence of booleans returns; bits outside the addressed
@@ -131,5 +132,73 @@ theorem countSetBits_eq (buf off len : Nat) :
 theorem and_bitwise (a b j : Nat) : (a &&& b).testBit j = (a.testBit j && b.testBit j) := Nat.testBit_and ..
 theorem or_bitwise (a b j : Nat) : (a ||| b).testBit j = (a.testBit j || b.testBit j) := Nat.testBit_or ..
 theorem xor_bitwise (a b j : Nat) : (a ^^^ b).testBit j = (a.testBit j ^^ b.testBit j) := Nat.testBit_xor ..
+
+/-- **In-place binary operation** (`bit_util::apply_bitwise_binary_op`): for every word operation
+that acts bitwise as `f`, every destination/source offset and every length, exactly the bits
+`[dofs, dofs+len)` of the destination become `f old src`, and **every other bit is unchanged** —
+including the bits sharing the first and last byte of the range. -/
+theorem applyBinaryOp_exact (op : Nat → Nat → Nat) (f : Bool → Bool → Bool)
+    (hop : ∀ a b j, j < 64 → (op a b).testBit j = f (a.testBit j) (b.testBit j))
+    (d dofs r ro len i : Nat) :
+    (applyBinaryOp op d dofs r ro len).testBit i =
+      if dofs ≤ i ∧ i < dofs + len then f (d.testBit i) (r.testBit (ro + (i - dofs))) else d.testBit i := by
+  unfold applyBinaryOp
+  by_cases h0 : len = 0
+  · subst h0
+    have : ¬ (dofs ≤ i ∧ i < dofs + 0) := by omega
+    simp only [if_true, this, if_false]
+  · simp only [h0, if_false]
+    by_cases ha : dofs % 8 = 0
+    · simp only [ha, if_true]
+      exact testBit_alignedBinOp op f hop d dofs r ro len i ha
+    · simp only [ha, if_false]
+      have hb8 : dofs % 8 < 8 := Nat.mod_lt _ (by decide)
+      have hr8 : ro % 8 < 8 := Nat.mod_lt _ (by decide)
+      have hro : 8 * (ro / 8) + ro % 8 = ro := by omega
+      have hn : min (8 - dofs % 8) len < 8 := by omega
+      have hn1 : 0 < min (8 - dofs % 8) len := by omega
+      have hmin : min (8 - dofs % 8) (min (8 - dofs % 8) len) = min (8 - dofs % 8) len := by omega
+      -- the first partial byte
+      have h1 : ∀ t, (alignToByte (fun l => op l (readUpToByte (r >>> (8 * (ro / 8))) (min (8 - dofs % 8) len) (ro % 8)))
+            d dofs (min (8 - dofs % 8) len)).testBit t =
+          if dofs ≤ t ∧ t < dofs + min (8 - dofs % 8) len then f (d.testBit t) (r.testBit (ro + (t - dofs)))
+          else d.testBit t := by
+        intro t
+        rw [testBit_alignToByte _
+          (fun j b => f b ((readUpToByte (r >>> (8 * (ro / 8))) (min (8 - dofs % 8) len) (ro % 8)).testBit j))
+          (fun x j hj => hop x _ j (by omega)) d dofs _ t ha, hmin]
+        by_cases c : dofs ≤ t ∧ t < dofs + min (8 - dofs % 8) len
+        · simp only [c, and_self, if_true]
+          rw [testBit_readUpToByte _ _ _ _ hn hr8, Nat.testBit_shiftRight]
+          have a1 : t - dofs < min (8 - dofs % 8) len := by omega
+          have a2 : 8 * (ro / 8) + (ro % 8 + (t - dofs)) = ro + (t - dofs) := by omega
+          simp [a1, a2]
+        · simp only [c, if_false]
+      by_cases hl : len - min (8 - dofs % 8) len = 0
+      · simp only [hl, if_true]
+        rw [h1]
+        have : min (8 - dofs % 8) len = len := by omega
+        rw [this]
+      · simp only [hl, if_false]
+        have hnn : min (8 - dofs % 8) len = 8 - dofs % 8 := by omega
+        have hal : (dofs + min (8 - dofs % 8) len) % 8 = 0 := by omega
+        rw [testBit_alignedBinOp op f hop _ _ r _ _ i hal, h1]
+        by_cases c1 : dofs ≤ i ∧ i < dofs + min (8 - dofs % 8) len
+        · have n2 : ¬ (dofs + min (8 - dofs % 8) len ≤ i ∧
+              i < dofs + min (8 - dofs % 8) len + (len - min (8 - dofs % 8) len)) := by omega
+          have p : dofs ≤ i ∧ i < dofs + len := by omega
+          simp [c1, n2, p]
+        · by_cases c2 : dofs + min (8 - dofs % 8) len ≤ i ∧
+              i < dofs + min (8 - dofs % 8) len + (len - min (8 - dofs % 8) len)
+          · have p : dofs ≤ i ∧ i < dofs + len := by omega
+            have e : ro + min (8 - dofs % 8) len + (i - (dofs + min (8 - dofs % 8) len)) = ro + (i - dofs) := by omega
+            have n3 : ¬ (i < dofs + min (8 - dofs % 8) len) := by omega
+            simp [c2, p, e, n3]
+          · have p : ¬ (dofs ≤ i ∧ i < dofs + len) := by omega
+            simp [c1, c2, p]
+
+/-- non-vacuity: `&&&` is a bitwise word operation in the sense required above -/
+example : ∀ a b j : Nat, j < 64 → (a &&& b).testBit j = (a.testBit j && b.testBit j) :=
+  fun a b j _ => Nat.testBit_and a b j
 
 end ArrowModel.C19
